@@ -517,6 +517,9 @@ def concretise_type(T: dict, sp: int = 0, lit_ok: bool = True) -> t.Any:
             # type literal inside typing.Union): the expression cannot be spelled this way; pane is not involved
             raise OutOfVocab('typing refuses this spelling: ' + str(e)[:80])
         _type_cache[key] = r
+        if not isinstance(r, (tuple, dict)):
+            # the same type object wherever the expression occurs (as a user's alias would be): top level and nested
+            _type_cache.setdefault((key[0], sp, not lit_ok), r)
         KEEPALIVE.append(r)
     return r
 
